@@ -526,6 +526,16 @@ func (c *compiler) evalIdentifier(node *ast.Identifier) (interface{}, error) {
 				return nil, nil
 			}
 
+			// a pointer that is trusted HTML only as a pointer (HTML() on *T) stays a pointer:
+			// what it points to would no longer be an HTMLer and write would drop it
+			if f.CanInterface() {
+				if h, ok := f.Interface().(HTMLer); ok {
+					if _, ok := f.Elem().Interface().(HTMLer); !ok {
+						return h, nil
+					}
+				}
+			}
+
 			f = f.Elem()
 		}
 
